@@ -54,7 +54,8 @@ type FuncSpec struct {
 	NoPanic      []string            // tags override for run-time checks
 	File         string
 	Line         int
-	Params       []string // extern: parameter names for use in clauses
+	Params       []string // parameter names for use in clauses, by position (extern: the only names; func: the names the clauses were written with)
+	RecvName     string   // func: the receiver name the clauses were written with
 	Results      []string
 	MayPanic     bool
 	Terminate    bool // extern: never returns (e.g. Logger.Fatal)
@@ -115,7 +116,7 @@ type WriterRule struct {
 	Line    int
 }
 
-var keywordRe = regexp.MustCompile(`^(requires|ensures|assume|modifies|bundle|use|axiom|inline|trusted|loop|at|ghost|wraps|func|pred|pure|extern|singleton|uses|receiver|alias|opaque|runtags|lemma|writers|callers|forbid|params|results|nopanic|terminates|maypanic|option|loops)\b`)
+var keywordRe = regexp.MustCompile(`^(requires|ensures|assume|modifies|bundle|use|axiom|inline|trusted|loop|at|ghost|wraps|func|pred|pure|extern|singleton|uses|receiver|alias|opaque|runtags|lemma|writers|callers|forbid|params|results|nopanic|terminates|maypanic|option|loops|recvname)\b`)
 
 func newContracts() *Contracts {
 	return &Contracts{
@@ -409,6 +410,11 @@ func ParseContracts(file string, c *Contracts) error {
 			for _, a := range strings.Split(rest, ",") {
 				cur.Params = append(cur.Params, strings.TrimSpace(a))
 			}
+		case "recvname":
+			if cur == nil {
+				return fmt.Errorf("%s:%d: recvname outside func", file, line)
+			}
+			cur.RecvName = strings.TrimSpace(rest)
 		case "results":
 			for _, a := range strings.Split(rest, ",") {
 				cur.Results = append(cur.Results, strings.TrimSpace(a))
